@@ -281,7 +281,9 @@ package websocket
 
 
 //@ func (*messageReader).Read
-//@ tags C03 C05 C07
+//@ tags C03 C05 C07 C08
+//@ bind ft,aerr after call:advanceFrame#1
+//@ assert at call:New#1[C08.transparent]: aerr == nil && (ft == 1 || ft == 2)
 //@ option weakb2i
 //@ results n err
 //@ let c := r.c
@@ -307,6 +309,16 @@ package websocket
 //@ loop 1 increases c.br.g_rd unless c.readErr != nil
 //@ ghost before call:Read#1: c.g_rpos := c.readMaskPos
 //@ ghost before call:Read#1: c.g_rrem := c.readRemaining
+
+
+// ReadMessage allocates nothing itself: the payload buffer is grown by
+// io.ReadAll as bytes arrive, never from the length a frame header announces.
+//@ func (*Conn).ReadMessage
+//@ tags C07
+//@ results messageType p err
+//@ requires RState(c)
+//@ allocbound 0
+//@ ensures[C04.sticky] imp(c.readErr != nil && old(c.readErr) != nil, err == old(c.readErr))
 
 //@ func (*Conn).NextReader
 //@ tags C03 C04 C05 C06 C07
@@ -478,7 +490,9 @@ package websocket
 //@ specfn rfc_rsv3(stream, int) bool = "rfc.rsv3"
 
 //@ func (*messageWriter).flushFrame
-//@ tags C01 C02 C09 C10 C20
+//@ tags C01 C02 C09 C10 C11 C20
+//@ cover write C11.oneframe
+//@ assert at call:write#1[C11.oneframe]: arg0 == w.c && same(arg4, extra)
 //@ mode int bv
 //@ option weakb2i
 //@ let c := w.c
@@ -506,13 +520,13 @@ package websocket
 //@ ensures[C20.released] imp(w.err != nil && c.writePool != nil, region(c.writeBuf) == 0)
 //@ assert at call:write#1[C09.type]: arg1 == ft
 //@ assert at call:write#1[C10.deadline]: arg2 == c.writeDeadline
-//@ assert at call:write#1[C02.state]: imp(isDataT(ft), !old(c.g_wst)) && imp(ft == 0, old(c.g_wst)) && imp(isControlT(ft), final && length <= 125)
-//@ assert at call:write#1[C02.hdr]@bv: rfc_opcode(arrayOf(arg3), off(arg3)) == ft && rfc_fin(arrayOf(arg3), off(arg3)) == final && \
+//@ assert at call:write#1[C01+C02.state]: imp(isDataT(ft), !old(c.g_wst)) && imp(ft == 0, old(c.g_wst)) && imp(isControlT(ft), final && length <= 125)
+//@ assert at call:write#1[C01+C02.hdr]@bv: rfc_opcode(arrayOf(arg3), off(arg3)) == ft && rfc_fin(arrayOf(arg3), off(arg3)) == final && \
 //@     rfc_rsv1(arrayOf(arg3), off(arg3)) == cmp && !rfc_rsv2(arrayOf(arg3), off(arg3)) && !rfc_rsv3(arrayOf(arg3), off(arg3)) && \
 //@     rfc_masked(arrayOf(arg3), off(arg3)) == !c.isServer && rfc_payLen(arrayOf(arg3), off(arg3)) == length && \
 //@     rfc_minimal(arrayOf(arg3), off(arg3)) && !rfc_lenTopBit(arrayOf(arg3), off(arg3)) && \
 //@     len(arg3) == rfc_hdrLen(arrayOf(arg3), off(arg3)) + (old(w.pos) - 14) && len(arg4) == len(extra)
-//@ assert at call:write#1[C02.payload]@int: len(arg3) >= old(w.pos) - 14 && \
+//@ assert at call:write#1[C01+C02.payload]@int: len(arg3) >= old(w.pos) - 14 && \
 //@     forall(i, 0, old(w.pos) - 14, ite(c.isServer, arg3[len(arg3) - (old(w.pos) - 14) + i], arg3[len(arg3) - (old(w.pos) - 14) + i] ^ arg3[len(arg3) - (old(w.pos) - 14) - 4 + (i&3)]) == c.g_app[out0 + i]) && \
 //@     forall(i, 0, len(arg4), arg4[i] == c.g_app[out0 + (old(w.pos) - 14) + i])
 //@ bind mk after call:newMaskKey#1
@@ -599,6 +613,29 @@ package websocket
 //@ loop 1 invariant forall(i, 0, len(p), p[i] == c.g_app[c.g_acc + i])
 //@ loop 1 decreases len(p)
 //@ ghost after call:copy#1: c.g_acc := c.g_acc + ret
+
+
+// ReadFrom: the bytes the source hands over become application bytes of the
+// message (ghost: appended to g_app at g_acc) the moment Read returns them.
+//@ func (*messageWriter).ReadFrom
+//@ tags C01 C02 C10 C20
+//@ results nn err
+//@ let c := w.c
+//@ requires imp(w.err == nil, WBuf(w)) && imp(w.err == nil, WData(w))
+//@ modifies MsgMods(w), w.c.g_app
+//@ ensures[closed] imp(old(w.err) != nil, nn == 0 && err == old(w.err) && c.conn.g_wn == old(c.conn.g_wn))
+//@ ensures[C01.readfrom] imp(old(w.err) == nil && c.g_acc - old(c.g_acc) <= 4611686018427387904, nn == c.g_acc - old(c.g_acc)) && c.g_acc >= old(c.g_acc)
+//@ ensures[ok] imp(err == nil, w.err == nil && WBuf(w))
+//@ ensures[okdata] imp(err == nil, WData(w))
+//@ ensures[open] imp(old(w.err) == nil && w.err == nil, WBuf(w) && WData(w))
+//@ ensures[fail] imp(w.err != nil && old(w.err) == nil, err != nil && c.writer == nil && Ended(c, w))
+//@ ensures[C09.sticky] imp(old(c.writeErr) != nil, c.writeErr == old(c.writeErr))
+//@ loop 1 modifies MsgMods(w), w.c.g_app
+//@ loop 1 invariant w.err == nil && WBuf(w) && imp(c.g_acc - old(c.g_acc) <= 4611686018427387904, nn == c.g_acc - old(c.g_acc)) && c.g_acc >= old(c.g_acc) && len(c.writeBuf) == old(len(c.writeBuf)) && region(c.writeBuf) == old(region(c.writeBuf))
+//@ loop 1 invariant WData(w)
+//@ loop 1 invariant imp(old(c.writeErr) != nil, c.writeErr == old(c.writeErr))
+//@ ghost after call:Read#1: c.g_app[c.g_acc:c.g_acc+ret0] := arg1
+//@ ghost after call:Read#1: c.g_acc := c.g_acc + ret0
 
 //@ func (*messageWriter).Close
 //@ tags C01 C02 C09 C10 C20
@@ -749,6 +786,9 @@ package websocket
 
 //@ func isValidChallengeKey
 //@ tags C07 C12
+//@ bind dec,derr after call:DecodeString#1
+//@ assert at call:DecodeString#1[C12.key]: same(arg1, s)
+//@ ensures[C12.key] imp(result, len(s) > 0 && derr == nil && len(dec) == 16) && imp(len(s) > 0 && derr == nil && len(dec) == 16, result)
 
 //@ func hostPortNoPort
 //@ tags C07 C14 C18
@@ -774,6 +814,8 @@ package websocket
 //@ func (*Upgrader).selectSubprotocol
 //@ tags C07 C12
 //@ assert at return#1[C12.offered]: u.Subprotocols != nil && streq(clientProtocol, serverProtocol)
+//@ assert at return#2[C12.appproto]: u.Subprotocols == nil
+//@ ensures[C12.proto] imp(u.Subprotocols != nil && old(len(u.Subprotocols)) == 0, len(result) == 0)
 
 //@ func field:httpProxyDialer.forwardDial
 //@ params hpd ctx network addr
@@ -989,6 +1031,9 @@ package websocket
 //@ bind rresp,rerr after call:ReadResponse#1
 //@ ghost after call:Proxy#1: d.g_net := d.g_net + 1
 //@ ghost after call:netDial#1: d.g_net := d.g_net + 1
+//@ assert at call:Proxy#1[C14.userinfo]: u.User == nil
+//@ assert at call:netDial#1[C14.userinfo]: u.User == nil
+//@ assert at call:netDial#1[C14.scheme]: streq(u.Scheme, "http") || streq(u.Scheme, "https")
 //@ assert at return#3[C14.scheme]: d.g_net == old(d.g_net) && conn == nil && err == errMalformedURL
 //@ assert at return#4[C14.userinfo]: d.g_net == old(d.g_net) && conn == nil && err == errMalformedURL
 //@ assert at call:Write#1[C14.reqkey]: len(req.Header["Sec-WebSocket-Key"]) == 1 && req.Header["Sec-WebSocket-Key"][0] == ck && ckerr == nil
@@ -1001,8 +1046,11 @@ package websocket
 //@ assert at call:Write#1[C14.reqhost]: true
 //@ assert at call:ReadResponse#1[C17.reader]: arg0 == conn.br && arg1 == req
 //@ assert at return#14[C14.bad]: conn == nil && err == ErrBadHandshake && resp == rresp && resp != nil
-//@ assert at return#17[C14.accept]: err == nil && conn != nil && rerr == nil && resp == rresp && resp.StatusCode == 101 && okUpg && okConn && streq(acc, ak)
-//@ assert at return#17[C15.client]: iff(conn.newCompressionWriter != nil, conn.newDecompressionReader != nil) && !conn.isServer
+//@ assert at return#$[C14.accept]: err == nil && conn != nil && rerr == nil && resp == rresp && resp.StatusCode == 101 && okUpg && okConn && streq(acc, ak)
+//@ bind exts after call:parseExtensions#1
+//@ loop 4 invariant forall(k, 0, rangeindex + 1, !streq(exts[k][""], "permessage-deflate")) && conn.newCompressionWriter == nil
+//@ assert at return#$[C15.negotiated]: imp(conn.newCompressionWriter == nil, forall(k, 0, len(exts), !streq(exts[k][""], "permessage-deflate")))
+//@ assert at return#$[C15.client]: iff(conn.newCompressionWriter != nil, conn.newDecompressionReader != nil) && !conn.isServer
 //@ assert at return#9[C16.cleanup]: nc.g_closed && conn == nil
 //@ assert at return#10[C16.cleanup]: nc.g_closed && conn == nil
 //@ assert at return#11[C16.cleanup]: nc.g_closed && conn == nil
@@ -1011,7 +1059,7 @@ package websocket
 //@ assert at return#14[C16.cleanup]: nc.g_closed && conn == nil
 //@ assert at return#15[C16.cleanup]: nc.g_closed && conn == nil
 //@ assert at return#16[C16.cleanup]: nc.g_closed && conn == nil
-//@ assert at return#17[C16.open]: !nc.g_closed && !conn.conn.g_wdl && !conn.conn.g_rdl
+//@ assert at return#$[C16.open]: !nc.g_closed && !conn.conn.g_wdl && !conn.conn.g_rdl
 //@ loop 2 invariant len(req.Header["Sec-WebSocket-Key"]) == 1 && req.Header["Sec-WebSocket-Key"][0] == ck
 //@ loop 2 invariant len(req.Header["Upgrade"]) == 1 && streq(req.Header["Upgrade"][0], "websocket") && len(req.Header["Connection"]) == 1 && streq(req.Header["Connection"][0], "Upgrade")
 //@ loop 2 invariant len(req.Header["Sec-WebSocket-Version"]) == 1 && streq(req.Header["Sec-WebSocket-Version"][0], "13") && streq(req.Method, "GET") && req.URL == u && req.Header != nil
@@ -1103,3 +1151,60 @@ package websocket
 //@ onlycallers[C11.paths] (*net.Buffers).WriteTo: (*Conn).writeBufs
 //@ onlycallers[C11.paths] (*Conn).writeBufs: (*Conn).write
 //@ onlycallers[C11.paths] (net.Conn).SetWriteDeadline: (*Conn).write (*Conn).WriteControl (*Upgrader).Upgrade
+
+// ---------------------------------------------------------------------------
+// client.go: TLS over a dialled connection (direct wss path)
+
+//@ func cloneTLSConfig
+//@ tags C18
+//@ nilable cfg
+//@ ensures[C18.tlsclone] result != nil && ref(result) >= old(alloc()) && imp(cfg != nil, result.ServerName == cfg.ServerName && len(result.ServerName) == len(cfg.ServerName) && result.InsecureSkipVerify == cfg.InsecureSkipVerify) && imp(cfg == nil, len(result.ServerName) == 0 && !result.InsecureSkipVerify)
+
+// g_hs: the TLS handshake on this connection succeeded; g_verified: the peer
+// certificate was verified for the ServerName of the configuration in use.
+//@ ghostfield tls.Conn.g_hs bool
+//@ ghostfield tls.Conn.g_verified bool
+//@ func doHandshake
+//@ tags C18
+//@ modifies tlsConn.g_hs, tlsConn.g_verified
+//@ assert at call:HandshakeContext#1[C18.verify]: arg0 == tlsConn
+//@ assert at call:VerifyHostname#1[C18.verify]: arg0 == tlsConn && same(arg1, cfg.ServerName)
+//@ ghost after call:HandshakeContext#1 when ret == nil: tlsConn.g_hs := true
+//@ ghost after call:VerifyHostname#1 when ret == nil: tlsConn.g_verified := true
+//@ ensures[C18.verify] imp(result == nil, tlsConn.g_hs && imp(!cfg.InsecureSkipVerify, tlsConn.g_verified))
+
+//@ func netDialWithTLSHandshake$1
+//@ tags C16 C18
+//@ requires u != nil
+//@ bind nc,ncerr after call:netDial#1
+//@ bind hp,hnp after call:hostPortNoPort#1
+//@ bind hs after call:doHandshake#1
+//@ assert at call:netDial#1[C18.firsthop]: streq(arg1, "tcp") && same(arg2, addr)
+//@ assert at call:Client#1[C18.tlsover]: arg0 == nc && arg1 == cfg
+//@ assert at call:doHandshake#1[C18.servername]: arg1 == tlsConn && arg2 == cfg && ref(cfg) >= old(alloc()) && imp(tlsConfig == nil || len(tlsConfig.ServerName) == 0, same(cfg.ServerName, hnp))
+//@ assert at return#2[C16.cleanup]: nc.g_closed && r0 == nil
+//@ assert at return#3[C18.tls]: hs == nil && tlsConn.g_hs && imp(!cfg.InsecureSkipVerify, tlsConn.g_verified) && typeIs(r0, "*tls.Conn") && asType(r0, "*tls.Conn") == tlsConn && tlsConn.g_inner == ref(nc) && !nc.g_closed
+
+// Which dial function is built (function values are compared by identity:
+// the value passed on is the value a wrapper returned).
+//@ func (*Dialer).netDialFromURL
+//@ tags C18
+//@ requires u != nil
+//@ bind tlsd after call:netDialWithTLSHandshake#1
+//@ assert at call:netDialWithTLSHandshake#1[C18.tlswrap]: arg1 == d.TLSClientConfig && arg2 == u && imp(d.NetDialContext != nil, arg0 == d.NetDialContext)
+//@ assert at return#1[C18.tlsonhttps]: imp(streq(u.Scheme, "https"), ite(d.NetDialTLSContext != nil, result == d.NetDialTLSContext, result == tlsd))
+//@ assert at return#1[C18.firsthop]: imp(!streq(u.Scheme, "https") && d.NetDialContext != nil, result == d.NetDialContext)
+
+//@ func (*Dialer).netDialFn
+//@ tags C16 C18
+//@ results fn err
+//@ nilable proxyURL
+//@ bind viaProxy after call:netDialFromURL#1
+//@ bind direct after call:netDialFromURL#2
+//@ bind dl after call:netDialWithDeadline#1
+//@ bind hasdl after call:Deadline#1
+//@ assert at call:netDialFromURL#1[C18.firsthop]: arg1 == proxyURL && proxyURL != nil
+//@ assert at call:netDialFromURL#2[C18.firsthop]: arg1 == backendURL && proxyURL == nil
+//@ assert at call:netDialWithDeadline#1[C16.deadline]: arg0 == ite(proxyURL != nil, viaProxy, direct)
+//@ assert at call:proxyFromURL#1[C16.proxydeadline]: arg0 == proxyURL && arg1 == ite(extres("(context.Context).Deadline", 1, ctx), dl, viaProxy)
+//@ assert at return#2[C16.deadline]: proxyURL == nil && fn == ite(extres("(context.Context).Deadline", 1, ctx), dl, direct)
